@@ -411,14 +411,15 @@ def _(cx, r):
 def _(cx, r):
     rot = Rotation.from_euler('xyz', cx.rph(r), True)
     return Call('transform.smooth_rotations', transform.smooth_rotations,
-                [Arg(rot, 'plain'), Arg(cx.dt, 'plain'), Arg(cx.dt * 3.0, 'plain')])
+                [Arg(rot, 'plain'), Arg(cx.dt, 'plain'),
+                 Arg(cx.dt * float(r.uniform(2.2, 3.4)), 'plain')])
 
 
 @template('transform.smooth_state')
 def _(cx, r):
     tr = cx.pool['trajectory'][0]
     return Call('transform.smooth_state', transform.smooth_state,
-                [Arg(tr, 'plain'), Arg(cx.dt * 3.0, 'plain')])
+                [Arg(tr, 'plain'), Arg(cx.dt * float(r.uniform(2.2, 3.4)), 'plain')])
 
 
 @template('transform.mat_en_from_ll')
@@ -486,6 +487,13 @@ def _(cx, r):
 def _(cx, r):
     form = int(r.integers(4))
     a = r.uniform(-720, 720, cx.n)
+    # boundary angles: exact multiples of 180 (the range is half-open on one side)
+    special = np.array([180.0, -180.0, 540.0, -540.0, 360.0, -360.0, 0.0, 900.0, 179.99999,
+                        180.00001])
+    mask = r.random(cx.n) < 0.25
+    a[mask] = r.choice(special, int(mask.sum()))
+    if r.random() < 0.3:
+        a[0] = float(r.choice(special))
     if form == 0:
         return Call('util.to_180_range', util.to_180_range, [Arg(a, 'vec')], row0=True)
     if form == 1:
@@ -543,7 +551,7 @@ def _(cx, r):
 
 @template('strapdown.Integrator')
 def _(cx, r):
-    return Call('strapdown.Integrator', strapdown.Integrator,
+    return Call('strapdown.Integrator', lambda *a: strapdown.Integrator(*a),
                 [Arg(cx.pva(r), 'plain'), Arg(bool(r.random() < 0.5))],
                 out=('integrator',))
 
@@ -591,7 +599,7 @@ def _(cx, r):
 # ---------------------------------------------------------- error_model
 @template('error_model.InsErrorModel')
 def _(cx, r):
-    return Call('error_model.InsErrorModel', error_model.InsErrorModel,
+    return Call('error_model.InsErrorModel', lambda *a: error_model.InsErrorModel(*a),
                 [Arg(bool(r.random() < 0.5))], out=('error_model',))
 
 
@@ -691,7 +699,9 @@ def _meas_ctor(kind):
         else:
             lever = cx.vec3(r) if r.random() < 0.5 else None
             args = [Arg(data, 'plain'), Arg(sd), Arg(lever, 'plain')]
-        return Call(f'measurements.{kind}', getattr(measurements, kind), args,
+        # resolved at call time: after a module reload the class object is a new one
+        return Call(f'measurements.{kind}',
+                    lambda *a, _k=kind: getattr(measurements, _k)(*a), args,
                     out=('measurement',))
     return build
 
@@ -737,7 +747,8 @@ def _(cx, r):
         args.append(Arg(v, 'vec3' if isinstance(v, np.ndarray) else 'plain'))
     v = p['scale_misal_sd']
     args.append(Arg(v, 'm33' if isinstance(v, np.ndarray) else 'plain'))
-    return Call('inertial_sensor.EstimationModel', inertial_sensor.EstimationModel, args,
+    return Call('inertial_sensor.EstimationModel',
+                lambda *a: inertial_sensor.EstimationModel(*a), args,
                 out=('est_model',))
 
 
@@ -795,7 +806,7 @@ def _(cx, r):
     bias = cx.vec3(r, 1e-3) if r.random() < 0.7 else None
     noise = [None, 1e-4, cx.vec3(r, 1e-4) ** 2][int(r.integers(3))]
     walk = [None, 1e-6, cx.vec3(r, 1e-5) ** 2][int(r.integers(3))]
-    return Call('inertial_sensor.Parameters', inertial_sensor.Parameters,
+    return Call('inertial_sensor.Parameters', lambda *a: inertial_sensor.Parameters(*a),
                 [Arg(tr, 'm33' if tr is not None else 'plain'),
                  Arg(bias, 'vec3' if bias is not None else 'plain'),
                  Arg(noise, 'vec3' if isinstance(noise, np.ndarray) else 'plain'),
@@ -806,7 +817,7 @@ def _(cx, r):
 @template('inertial_sensor.Parameters.from_EstimationModel')
 def _(cx, r):
     return Call('inertial_sensor.Parameters.from_EstimationModel',
-                inertial_sensor.Parameters.from_EstimationModel,
+                lambda *a: inertial_sensor.Parameters.from_EstimationModel(*a),
                 [Arg(_est_model(cx, r), 'plain'), Arg(cx.seed(r))], out=('parameters',))
 
 
